@@ -347,4 +347,96 @@ example : (mvarray Gen.interpretAscii demoPats).map mvToBp = some ⟨[3, 3], 2,
      [0x00, 0x02], [0xff, 0x05], [0x00, 0x00]]⟩ := by decide +kernel
 example : simStr8 [10] C01.demoNet demoOrder false [demoPats.getD 6 []] = some ("--F".toList.map Char.toNat) := by decide +kernel
 
+/-! ## (3) `cycle(k)` at byte level (m = 2; the byte ↔ value step also for m = 4)
+
+`cycleKB C sem ops T k st` = `LogicSim.cycle(k)` on the byte-level state (`s_to_c; c_prop; c_to_s; s_ppo_to_ppi`, k times; for m = 2, 4
+`s_ppo_to_ppi` copies the whole row `s[1, p]` to `s[0, p]`, all three planes). -/
+
+/-- the byte-level loop, seen through the planes each arity reads, IS the value-level loop `Cycle.cycleK` of C01 (m = 2, 4): every
+    statement of C01 about `cycleK` over `BitVec` / `P2 BitVec` values (`cycle_step`, `cycle_iter`, `cycle_end_to_end`,
+    `cycle_strip_irrelevant`) is a statement about the planes `:mdim` of the byte-level `s` -/
+theorem cycle_byte_level_is_value_level (nb : Nat) (ops : List Op) (T : Tabs) (k : Nat) :
+    (∀ (sem : Op → List (BitVec (8 * nb)) → BitVec (8 * nb)) (st : StB (BitVec (8 * nb))),
+      decSt (codec2 nb) (cycleKB (codec2 nb) sem ops T k st) = cycleK sem ops T mergeCopy 0 k (decSt (codec2 nb) st)) ∧
+    (∀ (sem : Op → List (P2 (BitVec (8 * nb))) → P2 (BitVec (8 * nb))) (st : StB (P2 (BitVec (8 * nb)))),
+      decSt (codec4 nb) (cycleKB (codec4 nb) sem ops T k st) = cycleK sem ops T mergeCopy ⟨0, 0⟩ k (decSt (codec4 nb) st)) := by
+  constructor
+  · intro sem st
+    have h := cycleKB_dec (codec2 nb) mergeCopy (codec2_lawful nb) sem ops T k st
+    have hd : (codec2 nb).dec [] = 0 := by simp [codec2, plane]
+    rw [hd] at h; exact h
+  · intro sem st
+    have h := cycleKB_dec (codec4 nb) mergeCopy (codec4_lawful nb) sem ops T k st
+    have hd : (codec4 nb).dec [] = ⟨0, 0⟩ := by simp [codec4, plane]
+    rw [hd] at h; exact h
+
+/-- lane `p` of plane 0 of every row of `s[i]` -/
+def lanes0 (nb p : Nat) (rows : List SRow) : List Bool := rows.map fun r => (plane nb r 0).getLsbD p
+
+/-- **`cycle(k)`, m = 2, lanes**: for every op program, index tables, `k`, byte-level state and lane `p` (padding lanes too): lane `p` of
+    plane 0 of `s[0]`, `s[1]` after `cycle(k)` on bytes = the ONE-LANE `Cycle.cycleK` started on lane `p` of plane 0 — patterns never
+    influence one another over any number of clock cycles -/
+theorem cycle_patterns2 (nb : Nat) (ops : List Op) (T : Tabs) (k : Nat) (st : StB (BitVec (8 * nb))) (p : Nat) (hp : p < 8 * nb) :
+    let r := cycleKB (codec2 nb) (fun op => semW2 nb op.code) ops T k st
+    let rb := cycleK (fun op => semL2n op.code) ops T mergeCopy false k
+      ⟨fun x => (st.env x).getLsbD p, ⟨lanes0 nb p st.s0, lanes0 nb p st.s1⟩⟩
+    lanes0 nb p r.s0 = rb.s.s0 ∧ lanes0 nb p r.s1 = rb.s.s1 := by
+  intro r rb
+  have hd := (cycle_byte_level_is_value_level nb ops T k).1 (fun op => semW2 nb op.code) st
+  have hl := C01.cycle_lanes (8 * nb) p hp ops T k (decSt (codec2 nb) st)
+  simp only at hl
+  have e0 : lanes0 nb p r.s0 = (decSt (codec2 nb) r).s.s0.map (·.getLsbD p) := by
+    simp [lanes0, decSt, codec2, List.map_map, Function.comp_def]
+  have e1 : lanes0 nb p r.s1 = (decSt (codec2 nb) r).s.s1.map (·.getLsbD p) := by
+    simp [lanes0, decSt, codec2, List.map_map, Function.comp_def]
+  rw [e0, e1, hd]
+  have ei : (⟨fun x => (st.env x).getLsbD p, ⟨lanes0 nb p st.s0, lanes0 nb p st.s1⟩⟩ : St Bool) =
+      ⟨fun x => ((decSt (codec2 nb) st).env x).getLsbD p,
+        ⟨(decSt (codec2 nb) st).s.s0.map (·.getLsbD p), (decSt (codec2 nb) st).s.s1.map (·.getLsbD p)⟩⟩ := by
+    simp [lanes0, decSt, codec2, List.map_map, Function.comp_def]
+  show _ = (cycleK _ ops T mergeCopy false k _).s.s0 ∧ _ = (cycleK _ ops T mergeCopy false k _).s.s1
+  rw [ei]
+  exact hl
+
+open KV.Cycle in
+/-- **`cycle(k)`, m = 2, end to end**: for every well-formed netlist, topological order, `k`, byte-level state (rows for every
+    `s_nodes` position) and lane `p`: lane `p` of plane 0 of `s[0]` after `cycle(k)` is the k-fold iterate of the next-state function
+    `N` (defined by THE solution of the gate equations, C01 `nextState_unique`) on lane `p` of the initial `s[0]`; port rows keep
+    their lane; `s[1]` after `j + 1` cycles holds the capture of the labelling of `N^j` — C01 `cycle_iter` through the bytes. -/
+theorem cycle_patterns_end_to_end2 (nb : Nat) (net : Net) (order : List Nat) (hwf : net.wfB = true)
+    (ho : orderOKB net order = true) (k : Nat) (st : StB (BitVec (8 * nb)))
+    (h0 : st.s0.length = net.sNodes.length) (h1 : st.s1.length = net.sNodes.length) (p : Nat) (hp : p < 8 * nb) :
+    let ops := sigOps Gen.kindPrefixes net order false
+    let sem : Op → List Bool → Bool := fun op => semL2n op.code
+    let envp : Nat → Bool := fun x => (st.env x).getLsbD p
+    let N := Cycle.nextState sem ops net false mergeCopy false envp
+    let r := cycleKB (codec2 nb) (fun op => semW2 nb op.code) ops (tabsOf net false) k st
+    lanes0 nb p r.s0 = iter N k (lanes0 nb p st.s0) ∧
+    (∀ q, q < net.io.length → (lanes0 nb p r.s0)[q]? = (lanes0 nb p st.s0)[q]?) ∧
+    (∀ j, k = j + 1 → lanes0 nb p r.s1 =
+      captureRow net false (solOf sem ops (tabsOf net false) false envp (iter N j (lanes0 nb p st.s0))) (lanes0 nb p st.s1)) := by
+  intro ops sem envp N r
+  obtain ⟨e0, e1⟩ := cycle_patterns2 nb ops (tabsOf net false) k st p hp
+  have hi := C01.cycle_iter Gen.kindPrefixes net order hwf ho sem mergeCopy false
+    ⟨envp, ⟨lanes0 nb p st.s0, lanes0 nb p st.s1⟩⟩ (by simp [lanes0, h0]) (by simp [lanes0, h1]) k
+  simp only at hi e0 e1
+  show lanes0 nb p r.s0 = _ ∧ (∀ q, _ → (lanes0 nb p r.s0)[q]? = _) ∧ (∀ j, _ → lanes0 nb p r.s1 = _)
+  rw [e0, e1]
+  exact hi
+
+/-- non-vacuity of (3): the toggle flip-flop `C01.demoSeq` (`q' = q XOR en`), 11 lanes in two bytes: enable pattern
+    `0b101_0101_0101` in plane 0 of the port row, state 0; after 1, 2, 3 cycles the state row toggles in the enabled lanes only, all
+    three planes of `s[0]`'s state row are the copied `s[1]` row (plane 1 = plane 0, plane 2 as the constructor left it) -/
+def demoSeqSt : StB (BitVec (8 * 2)) :=
+  ⟨fun _ => 0, [[[0x55, 0x05], [0x55, 0x05], [0, 0]], freshRow 2, [[0, 0], [0, 0], [0, 0]]], List.replicate 3 (freshRow 2)⟩
+def demoSeqRun (k : Nat) : StB (BitVec (8 * 2)) :=
+  cycleKB (codec2 2) (fun op => semW2 2 op.code) (sigOps Gen.kindPrefixes C01.demoSeq [0, 1, 2, 3, 4, 5, 6] false)
+    (tabsOf C01.demoSeq false) k demoSeqSt
+example : (demoSeqRun 1).s0.getD 2 [] = [[0x55, 0x05], [0x55, 0x05], [0, 0]] ∧
+    (demoSeqRun 2).s0.getD 2 [] = [[0, 0], [0, 0], [0, 0]] ∧ (demoSeqRun 3).s0.getD 2 [] = [[0x55, 0x05], [0x55, 0x05], [0, 0]] ∧
+    (demoSeqRun 3).s1.getD 1 [] = [[0, 0], [0, 0], [0, 0]] ∧ (demoSeqRun 3).s0.getD 0 [] = [[0x55, 0x05], [0x55, 0x05], [0, 0]] := by
+  decide +kernel
+
+/-! ## what the driver evaluates -/
+
 end KV.C15
